@@ -128,3 +128,29 @@ Example file_retr_of_removed_message :
      [ln [65; 80; 79; 80; 32; 98; 32; 120]; ERemove [98] [0]; ln [82; 69; 84; 82; 32; 49]])) (false, BNone)
   = (true, BWire [65; 13; 10; 46; 13; 10]).
 Proof. vm_compute. split; reflexivity. Qed.
+
+(** * What others do to the store is invisible to the session's numbers, sizes and ids *)
+
+Definition is_external (e : event) : bool :=
+  match e with EDeliver _ _ | ERemove _ _ | EPurge _ => true | _ => false end.
+
+Theorem store_changes_invisible fl evs : forall w,
+  (forall e, In e evs -> is_external e = true) ->
+  w_sess (run fl w evs) = w_sess w /\ w_out (run fl w evs) = w_out w /\ w_wfail (run fl w evs) = w_wfail w.
+Proof.
+  induction evs as [|e evs IH]; intros w H; [auto|].
+  rewrite run_cons.
+  destruct (IH (wstep fl w e) (fun e' H' => H e' (or_intror H'))) as (A & B & C).
+  rewrite A, B, C. pose proof (H e (or_introl eq_refl)) as He.
+  destruct e; try discriminate He; cbn; auto.
+Qed.
+
+(** Every reply except the bodies of RETR/TOP (file store) and the effect of QUIT is a
+    function of the session state alone: the store the command runs against is irrelevant. *)
+Theorem replies_ignore_store fl st1 st2 s c args :
+  c <> RETR -> c <> TOP -> c <> QUIT ->
+  fst (trans_handler fl st1 s c args) = fst (trans_handler fl st2 s c args).
+Proof.
+  intros H1 H2 H3. unfold trans_handler.
+  destruct c; try congruence; repeat break_match; reflexivity.
+Qed.
